@@ -42,7 +42,7 @@ class PyprojectWriter(DependencyWriter):
         )
 
         if not dry_run:
-            with open(self.path, "w", encoding="utf-8") as f:
+            with open(self.path, "w", encoding="utf-8", newline="") as f:
                 tomlkit.dump(pyproject, f)
 
         changes = self.build_changes(
@@ -55,7 +55,8 @@ class PyprojectWriter(DependencyWriter):
         )
 
     def _parse_file(self):
-        with open(self.path, encoding="utf-8") as f:
+        # no newline translation: tomlkit keeps the document's own line endings
+        with open(self.path, encoding="utf-8", newline="") as f:
             return tomlkit.load(f)
 
     def _update_poetry(
